@@ -69,7 +69,7 @@ def run_field(prop: str, field: str, tier: str, seed: int, rule: str, *, filt=No
     inconclusive = 0
     for x in recs:
         v = x["v"].get(field, "n/a")
-        if field in ("c01", "c03") and "big-literal" in exprs.shape_tags(exprs.parse(x["text"])):
+        if field in ("c01", "c03") and {"big-literal", "inexact-literal"} & set(exprs.shape_tags(exprs.parse(x["text"]))):
             inconclusive += 1  # the TLA+ oracle cannot represent the literal: judged natively (C06), not here
         elif v in ("value-range", "unsupported-node"):
             inconclusive += 1
@@ -77,7 +77,7 @@ def run_field(prop: str, field: str, tier: str, seed: int, rule: str, *, filt=No
             vio.append(violation(x, v, "machine", prop))
     for x in traces:
         v = x["v"].get(field, "n/a")
-        if field in ("c01", "c03") and "big-literal" in exprs.shape_tags(exprs.parse(x["text"])):
+        if field in ("c01", "c03") and {"big-literal", "inexact-literal"} & set(exprs.shape_tags(exprs.parse(x["text"]))):
             continue
         if v not in ("ok", "n/a"):
             vio.append(violation(x, v, "native-trace", prop))
